@@ -1,7 +1,7 @@
 SPECIFICATION Spec
 CONSTANTS
   N = 3
-  MaxDepth = 6
+  MaxDepth = 9
   SpecSet = {"s1", "s2"}
   SizeSet = {"A", "dyn"}
   TermSet = {1, 2}
